@@ -23,6 +23,13 @@ cancelled, `late` = cancelled after Unlock): the model's `ctxDone i`, which chan
 The SPEC rule above is unchanged and says so: the end of the acquiring context is not an unlock, not a lease
 expiry and not a KV failure. `unlocking` additionally compares with the model: a holder whose goroutine runs in the
 model and whom the KV never failed cannot find its lease run out at its own Unlock (DIFF).
+Slow renewal requests: `renewslow i key lat t` says that a renewal request instance `i` made at `t` needs `lat` ns to
+reach the KV (transport latency injected by the wrapper). In the model that is time passing before the renewal
+(`slowRenew`): the goroutine renews with `context.Background()` and waits, and `slow_renewal_keeps` says the holder
+loses nothing as long as the answer comes inside the lease. A latency that reaches the expiry of the holder's current
+lease is a failure of the KV side and excuses a lapse like an injected fault; a shorter one excuses nothing.
+`kvrenew … => gaveup` says that the storage abandoned such a request before the KV saw it: the model's ticker never
+does that (DIFF), and it is NOT a KV failure — the holder is still held to the statement.
 -/
 namespace Specter.C49
 open Specter.Util
@@ -38,6 +45,8 @@ structure OEntry where
   expl : Option Int := none    -- a `RenewLockLease(key, dur)` call is in progress (`renewing` seen): its `dur`
   explRes : Option String := none  -- what the KV renewal made by that call returned
   acqDone : Option (String × Nat) := none  -- the context this instance's `Lock` was called with ended (kind, when), since it locked
+  slow : Option (Nat × Nat) := none    -- the last slow renewal request since it locked: (latency, when it was made); it was answerable inside the lease
+  gaveUp : Option Nat := none          -- the storage abandoned a renewal request before the KV saw it (when), since it locked
 
 structure DState where
   kv : Kv := []
@@ -147,7 +156,7 @@ def dstep (d : DState) (toks : List String) (rhs : String) : DState × Verdict :
           else
             let (s', out) := rstep (tickTo s now) (.ev (.lockTry i ttl))
             let e := orcOf d key i
-            let d' := setOrc (setLock d key s') { e with lastTok := tok, cfgTtl := ttl, acqDone := none }
+            let d' := setOrc (setLock d key s') { e with lastTok := tok, cfgTtl := ttl, acqDone := none, slow := none, gaveUp := none }
             if out = .acquired tok then (d', .ok) else (d', .diff (renderL out))
       | none =>
         -- refused: admissible iff the model refuses at the start of the window (conflict is monotone in time)
@@ -168,6 +177,12 @@ def dstep (d : DState) (toks : List String) (rhs : String) : DState × Verdict :
           let d' := setOrc (setLock d key (rstep s (.kvFault i)).1) { noted "err" with fault := true }
           if s.tickers.contains i then (d', .ok)
           else (d', .diff s!"model: the renewal goroutine of instance {i} is not running, its ticker makes no KV call")
+      else if rhs = "gaveup" then
+        -- the request was abandoned by its caller before the KV saw it. Not a KV failure: `fault` stays as it is.
+        if e.expl.isSome then (setOrc d (noted "err"), .ok)      -- the context passed to `RenewLockLease` ended: its caller is told
+        else
+          (setOrc d { noted "err" with gaveUp := some ta },
+           .diff s!"model: the renewal goroutine of instance {i} renews with context.Background() and waits for the KV's answer; it never abandons a request")
       else if s.lock.holder i ≠ some prev then
         (setOrc d (noted (if (parseTok rhs).isSome then "ok" else rhs)), .diff s!"model holder token {repr (s.lock.holder i)} ≠ {prev}")
       else if e.expl.isNone && !s.tickers.contains i then
@@ -226,9 +241,16 @@ def dstep (d : DState) (toks : List String) (rhs : String) : DState × Verdict :
         let e := orcOf d key j
         let d' := setOrc d { e with holding := true }
         -- what became of the context the holder called `Lock` with is reported, it never excuses anything
-        let ctxNote (c : OEntry) : String := match c.acqDone with
-          | some (kind, td) => s!"; the context its Lock was called with ended at {td} ({kind}): not an unlock"
-          | none => ""
+        let ctxNote (c : OEntry) : String :=
+          (match c.acqDone with
+            | some (kind, td) => s!"; the context its Lock was called with ended at {td} ({kind}): not an unlock"
+            | none => "") ++
+          (match c.slow with
+            | some (lat, ts) => s!"; its renewal request at {ts} needed {lat} ns to reach the KV, inside its lease: slow is not failed"
+            | none => "") ++
+          (match c.gaveUp with
+            | some tg => s!"; the storage abandoned a renewal request at {tg} before the KV saw it and stopped renewing"
+            | none => "")
         match clash, lost with
         | some c, _ => (d', .spec s!"instance {j} obtained the lock at {t} while instance {c.inst} holds it with lease until {c.lastTok}{ctxNote c}")
         | none, some c => (d', .spec s!"instance {j} obtained the lock at {t} while instance {c.inst} still holds it (locked, never unlocked, no KV failure): its lease was not kept alive and ran out at {c.lastTok}{ctxNote c}")
@@ -261,6 +283,18 @@ def dstep (d : DState) (toks : List String) (rhs : String) : DState × Verdict :
       if s'.tickers.contains i = s.tickers.contains i && s'.lock.holder i = s.lock.holder i then (d', .ok)
       else (d', .diff "model: the end of the acquiring context changes nothing")
     | _, _ => (d, .bad "ctxdone args")
+  -- ---- a renewal request of instance `i` needs `lat` ns to reach the KV ----
+  | ["renewslow", i, key, lat, t] =>
+    match i.toNat?, lat.toNat?, t.toNat? with
+    | some i, some lat, some t =>
+      let e := orcOf d key i
+      -- model: time passes, then the renewal (`slowRenew`); the `kvrenew` line that follows replays it at its own time.
+      -- A request kept until the holder's current lease is over is a failure of the KV side (excuses the lapse);
+      -- one that is answerable inside the lease excuses nothing
+      if !e.holding then (d, .ok)
+      else if t + lat ≥ e.lastTok then (setOrc d { e with fault := true }, .ok)
+      else (setOrc d { e with slow := some (lat, t) }, .ok)
+    | _, _, _ => (d, .bad "renewslow args")
   -- ---- explicit `RenewLockLease(key, dur)` ----
   | ["renewing", i, key, dur, _t] =>
     match i.toNat?, dur.toInt? with
